@@ -438,7 +438,9 @@ def run_alignment(start, end, case):
                 ali.end = decoy
             ali.STEPS_FACTOR = 2
             np.random.seed(12345)
-            with np.errstate(all="ignore"):
+            import contextlib, io, warnings as _w
+            with np.errstate(all="ignore"), contextlib.redirect_stdout(io.StringIO()), _w.catch_warnings():
+                _w.simplefilter("ignore")
                 ali.align_molecules(restrictions=None if case["restr"] is None else [tuple(r) for r in case["restr"]],
                                     deformation_types=None if case["deform"] is None else tuple(case["deform"]),
                                     ignore_hydrogens=bool(case["ignore_h"]),
